@@ -368,4 +368,145 @@ theorem reserved_intermediates_in64 (fs : FeeSchedule) (o : Order) (ver : Nat)
       | (have := hfee v hv; apply In64.of_bounds <;> norm_num at * <;> omega)
       | (apply In64.of_bounds <;> norm_num at * <;> omega)
 
+
+/-! ## magnitude of one reserved value and the running sum of `validateOrder` -/
+
+/-- inside the domain a reserved value is at most 2.2·10^18 -/
+theorem closedBalanceDelta_ge (fs : FeeSchedule) (o : Order) (ver : Nat)
+    (hD : inDomain fs o = true) (hm : 0 < o.minUnitsMatch) :
+    -(22 * 10 ^ 17 : Int) ≤ closedBalanceDelta fs o ver := by
+  have hd := dom_of_inDomain fs o hD
+  have hbsu : baseSupplyUnit = 100000 := by decide
+  have hmle : toSatoshis o.minUnitsMatch ≤ 10 ^ 12 := by
+    have := hd.mn; unfold toSatoshis; rw [hbsu]; omega
+  have hmpos : 0 < toSatoshis o.minUnitsMatch := Nat.mul_pos hm baseSupplyUnit_pos
+  have hN : maxMatches o ≤ 10 ^ 7 := le_trans (Nat.div_le_self _ _) hd.unf
+  have hNeq := maxMatches_eq o hm
+  have hr : toSatoshis o.unitsUnfulfilled % toSatoshis o.minUnitsMatch < toSatoshis o.minUnitsMatch :=
+    Nat.mod_lt _ hmpos
+  have hA := n0_perMatch_bound fs o hd hm
+  have hs := hd.self
+  have hPgen : ∀ amt : Nat, amt ≤ 2 * toSatoshis o.minUnitsMatch →
+      premium (if o.isBid then bidPremiumAmt o amt else amt) o.fixedRate o.leaseDuration ≤ 2 ^ 49 := by
+    intro amt hamt
+    apply premium_le_of_guard
+    refine le_trans ?_ hd.g2
+    apply Nat.mul_le_mul_right; apply Nat.mul_le_mul_right
+    have hσ := sigma_le o
+    split
+    · rw [bidPremiumAmt_eq]; omega
+    · omega
+  have hfeeN : estimateTraderFee 1 o.maxBatchFeeRate ver ≤ 10 ^ 8 := by
+    have hw := traderWeight_one_le ver
+    have := hd.maxFee
+    unfold estimateTraderFee
+    apply Nat.div_le_of_le_mul; nlinarith
+  have hfee1 : (0 : Int) ≤ (estimateTraderFee 1 o.maxBatchFeeRate ver : Int) ∧
+      (estimateTraderFee 1 o.maxBatchFeeRate ver : Int) ≤ 10 ^ 8 :=
+    ⟨Int.natCast_nonneg _, by exact_mod_cast hfeeN⟩
+  have hNf : (maxMatches o : Int) * (estimateTraderFee 1 o.maxBatchFeeRate ver : Int) ≤ 10 ^ 15 := by
+    have h1 : (0 : Int) ≤ (maxMatches o : Int) := Int.natCast_nonneg _
+    have h2 : (maxMatches o : Int) ≤ 10 ^ 7 := by exact_mod_cast hN
+    nlinarith [hfee1.1, hfee1.2]
+  have hNf0 : (0 : Int) ≤ (maxMatches o : Int) * (estimateTraderFee 1 o.maxBatchFeeRate ver : Int) :=
+    mul_nonneg (Int.natCast_nonneg _) hfee1.1
+  have hX := perMatch_bound fs o (toSatoshis o.minUnitsMatch) (by omega) hs hd.ppm hd.base (hPgen _ (by omega))
+  have hY := perMatch_bound fs o (toSatoshis o.minUnitsMatch + toSatoshis o.unitsUnfulfilled % toSatoshis o.minUnitsMatch)
+    (by omega) hs hd.ppm hd.base (hPgen _ (by omega))
+  unfold closedBalanceDelta
+  simp only [hNeq]
+  generalize toSatoshis o.unitsUnfulfilled = U at *
+  generalize toSatoshis o.minUnitsMatch = m at *
+  generalize maxMatches o = N at *
+  generalize estimateTraderFee 1 o.maxBatchFeeRate ver = f at *
+  generalize perMatch fs o m = X at *
+  generalize perMatch fs o (m + U % m) = Y at *
+  generalize hAg : (N : Int) * X = A at *
+  generalize hCg : (N : Int) * (f : Int) = C at *
+  have e1 : ((N : Int) - 1) * X = A - X := by rw [← hAg]; ring
+  have e2 : ((N : Int) - 1) * (f : Int) = C - f := by rw [← hCg]; ring
+  split
+  · rw [e1, e2]; norm_num at *; omega
+  · norm_num at *; omega
+
+/-- `0 ≤ ReservedValue ≤ 2.2·10^18` for every order of the domain (archived or active with a minimum match) -/
+theorem reservedOf_bounds (fs : FeeSchedule) (o : Order) (ver : Nat)
+    (h : archived o.state = true ∨ (inDomain fs o = true ∧ 0 < o.minUnitsMatch)) :
+    0 ≤ reservedOf fs ver o ∧ reservedOf fs ver o ≤ 22 * 10 ^ 17 := by
+  by_cases ha : archived o.state = true
+  · have : orderReservedValue fs o ver = .ok 0 := by unfold orderReservedValue reservedValue; simp [ha]
+    simp [reservedOf, this]
+  · have hna : archived o.state = false := by simpa using ha
+    rcases h with h | ⟨hD, hm⟩
+    · exact absurd h ha
+    · have hc := reservedValue_closed fs o ver hna hm
+      have hb := closedBalanceDelta_ge fs o ver hD hm
+      simp only [reservedOf, hc]
+      split <;> constructor <;> omega
+
+/-- the running sums of `validateOrder` grow by at most 2.2·10^18 per evaluated order -/
+theorem runningSums_bound (fs : FeeSchedule) (acct : Account) (db : List Order) (acc : Int) (k : Nat)
+    (hacc : 0 ≤ acc ∧ acc ≤ (k : Int) * (22 * 10 ^ 17))
+    (hdom : ∀ x ∈ db, x.acctKey = acct.key →
+      archived x.state = true ∨ (inDomain fs x = true ∧ 0 < x.minUnitsMatch)) :
+    ∀ v ∈ runningSums fs acct acc db,
+      0 ≤ v ∧ v ≤ ((k + (db.filter (fun x => x.acctKey = acct.key)).length : Nat) : Int) * (22 * 10 ^ 17) := by
+  induction db generalizing acc k with
+  | nil => intro v hv; simp [runningSums] at hv
+  | cons x rest ih =>
+    intro v hv
+    unfold runningSums at hv
+    by_cases hk : x.acctKey = acct.key
+    · simp only [hk, ne_eq, not_true_eq_false, if_false] at hv
+      have hb := reservedOf_bounds fs x acct.version (hdom x List.mem_cons_self hk)
+      cases hx : orderReservedValue fs x acct.version with
+      | panic => simp [hx] at hv
+      | ok r =>
+        have hr : reservedOf fs acct.version x = r := by simp [reservedOf, hx]
+        rw [hr] at hb
+        simp only [hx, List.mem_cons] at hv
+        have hlen : (List.filter (fun y => decide (y.acctKey = acct.key)) (x :: rest)).length =
+            (List.filter (fun y => decide (y.acctKey = acct.key)) rest).length + 1 := by
+          simp [List.filter_cons, hk]
+        rcases hv with rfl | hv
+        · rw [hlen]; push_cast; constructor <;> nlinarith [hacc.1, hacc.2, hb.1, hb.2]
+        · have := ih (acc + r) (k + 1) (by push_cast; constructor <;> nlinarith [hacc.1, hacc.2, hb.1, hb.2])
+            (fun y hy => hdom y (List.mem_cons_of_mem _ hy)) v hv
+          rw [hlen]
+          have e : k + 1 + (List.filter (fun y => decide (y.acctKey = acct.key)) rest).length =
+              k + ((List.filter (fun y => decide (y.acctKey = acct.key)) rest).length + 1) := by omega
+          rw [e] at this; exact this
+    · simp only [hk, ne_eq, not_false_eq_true, if_true] at hv
+      have := ih acc k hacc (fun y hy => hdom y (List.mem_cons_of_mem _ hy)) v hv
+      have hlen : (List.filter (fun y => decide (y.acctKey = acct.key)) (x :: rest)).length =
+          (List.filter (fun y => decide (y.acctKey = acct.key)) rest).length := by
+        simp [List.filter_cons, hk]
+      rw [hlen]; exact this
+
+
+/-- `runningSums` ends in the total `validateOrder` compares with the account value -/
+theorem runningSums_last (fs : FeeSchedule) (acct : Account) (db : List Order) (r0 rs : Int)
+    (h : sumReserved fs acct db = some rs) :
+    (r0 :: runningSums fs acct r0 db).getLast? = some (r0 + rs) := by
+  induction db generalizing r0 rs with
+  | nil => simp [sumReserved] at h; simp [runningSums, ← h]
+  | cons x rest ih =>
+    unfold sumReserved at h
+    unfold runningSums
+    by_cases hk : x.acctKey = acct.key
+    · simp only [hk, ne_eq, not_true_eq_false, if_false] at h ⊢
+      cases hx : orderReservedValue fs x acct.version with
+      | panic => simp [hx] at h
+      | ok v =>
+        simp only [hx] at h ⊢
+        cases hr : sumReserved fs acct rest with
+        | none => simp [hr] at h
+        | some r =>
+          simp only [hr, Option.map_some, Option.some.injEq] at h
+          have := ih (r0 + v) r hr
+          rw [List.getLast?_cons_cons, this, ← h]
+          congr 1; ring
+    · simp only [hk, ne_eq, not_false_eq_true, if_true] at h ⊢
+      exact ih r0 rs h
+
 end Pool.C11
